@@ -10,6 +10,7 @@ Location and Content-Location values (C15).
 import WzVerif.Util.Bytes
 import WzVerif.Model.Headers
 import WzVerif.Model.Views
+import WzVerif.Model.Url
 import WzVerif.Gen.Response
 namespace Wz.Resp
 open Wz Hdr
@@ -161,6 +162,36 @@ def getWsgiHeaders (r : R) (locOut clocOut : Str) : HList :=
   if r.body.kind == .seq && contentLength.isNone && !(status == 204 || status == 304) && !informational then
     (Hdr.set h "Content-Length".toList (Views.CC.natText (totalLen r.body.items))).1
   else h
+
+/-! ### Location / Content-Location on top of the C15 model of `iri_to_uri`
+
+`urlsplit` (+ the IDNA step on the host), `urlunsplit` and `urljoin` are opaque parameters; the
+quoting in between is `Url.iriToUri` (C15). -/
+
+structure UrlOps where
+  /-- `urlsplit(url)` with `hostname.encode("idna").decode("ascii")` applied to the host -/
+  split : Str → Url.Parts
+  /-- `urlunsplit(5-tuple)` -/
+  unsplit : Url.Split → Str
+  /-- `urljoin(base, url)` -/
+  join : Str → Str → Str
+
+/-- `werkzeug.urls.iri_to_uri(url)` -/
+def iriToUriStr (U : UrlOps) (url : Str) : Str := U.unsplit (Url.iriToUri (U.split url))
+
+/-- the Location value `get_wsgi_headers` stores: `iri_to_uri(location)`, then - with
+`autocorrect_location_header` - `urljoin(iri_to_uri(current_url), location)`. Both arguments of
+`urljoin` have been through `iri_to_uri` before the join (in this order in the code). -/
+def locationOut (U : UrlOps) (autocorrect : Bool) (currentUrl location : Str) : Str :=
+  let loc := iriToUriStr U location
+  if autocorrect then U.join (iriToUriStr U currentUrl) loc else loc
+
+/-- `get_wsgi_headers` with the URL conversions spelled out: the values used are the *last*
+Location / Content-Location entries of the response headers -/
+def getWsgiHeadersU (U : UrlOps) (autocorrect : Bool) (currentUrl : Str) (r : R) : HList :=
+  let loc := ((getlist r.headers "location".toList).getLast?).getD []
+  let cloc := ((getlist r.headers "content-location".toList).getLast?).getD []
+  getWsgiHeaders r (locationOut U autocorrect currentUrl loc) (iriToUriStr U cloc)
 
 /-- the close log after the server iterated (any prefix) and closed the iterable -/
 def closeLog (r : R) (method : Str) : List CloseEv := (getAppIter r method).closeActs
